@@ -95,6 +95,14 @@ class VIter:
 
 
 @dataclass
+class VItState:
+    """A Python iterator over a sequence, held by value in a local name: the underlying sequence and how many items were consumed."""
+
+    seq: Any  # VSeq
+    pos: Any  # z3 Int
+
+
+@dataclass
 class VBound:
     """A bound method ``recv.name`` waiting to be called."""
 
